@@ -311,7 +311,9 @@ func Gen(t *rapid.T, o Options) File {
 				if gen.Chance(t, 10, "rparensuffix") {
 					s.RParenSuffix = "rp"
 				}
-			} else if o.Markers && gen.Chance(t, 20, "blockbefore") {
+			} else if o.Markers && verb != "retract" && gen.Chance(t, 20, "blockbefore") {
+				// (retract blocks stay uncommented: collapsing a one-line commented block merges the
+				// block comment into the line's rationale, which legitimately changes the parsed text)
 				s.Before = []string{"BLOCK" + strconv.Itoa(g.nextID)}
 			}
 		} else {
